@@ -1,6 +1,7 @@
 package props
 
 import (
+	"fmt"
 	"io"
 
 	"github.com/bytedance/gopkg/lang/dirtmake"
@@ -17,7 +18,7 @@ func init() {
 		ID: "C08", Run: runC08, QuickRuns: 200000, ThoroughRuns: 8000000,
 		Rule:          "Each run: 1..6 cases; a case is a generated value tree (all types, chains nested 1..70 for every container kind, fixed-size fast-path containers) whose encoding passes through the fault transport (truncation at a cut point biased to structural boundaries, corruption of 1..3 structural bytes - type tags incl. >= 0x80, sizes 0x7fffffff/0x80000000/0xffffffff/size+-1, field ids - or a hostile requested type) and is delivered to all five skippers, the three stream-fed ones through a simulated Source with per-case fragmentation and terminal error. Oracle: the reference parser's verdict on the delivered bytes (Appendix A table).",
 		Components:    realComponents,
-		Probes:        []string{"verdict.OK", "verdict.TRUNCATED", "verdict.NEGATIVE", "verdict.UNKNOWN", "depth_63", "depth_64_boundary", "depth_ge_65", "dontcare_empty_container", "sim_oom_accepted", "tag_ge_0x80_parsed"},
+		Probes:        []string{"verdict.OK", "verdict.TRUNCATED", "verdict.NEGATIVE", "verdict.UNKNOWN", "depth_63", "depth_64_boundary", "depth_ge_65", "dontcare_empty_container", "sim_oom_accepted", "tag_ge_0x80_parsed", "every_cut_point_enumerated"},
 		NotInjectable: []string{"stall of the source under ReaderSkipDecoder (it implements io.ReadFull, which by convention spins on a reader that returns (0,nil) forever)"},
 	})
 }
@@ -103,6 +104,23 @@ func runC08(c *sim.Ctx) {
 		c.Abs(uint32(v.Kind)<<20 | uint32(mc.t)<<8 | sizeBucket(len(mc.delivered)))
 		c.Ev(uint64(v.Kind), uint64(len(mc.delivered)), uint64(v.Len))
 		skipAllFacilities(c, cfg, mc, k)
+		// fault enumeration over crash points: every cut point of this message
+		limit, den := 256, 40
+		if c.Tier == "thorough" {
+			limit, den = 2048, 10
+		}
+		if len(mc.pre) <= limit && cfg.Chance(1, den) {
+			c.Count("probe.every_cut_point_enumerated")
+			for cut := 0; cut <= len(mc.pre); cut++ {
+				m2 := *mc
+				m2.delivered = mc.pre[:cut]
+				m2.cut = cut
+				m2.desc = fmt.Sprintf("%s cut@%d/%d (enumerated)", mc.baseDesc, cut, len(mc.pre))
+				m2.verdict = ref.Parse(m2.delivered, m2.t)
+				c.Count("fault.fired.truncation")
+				skipAllFacilities(c, cfg, &m2, k)
+			}
+		}
 	}
 	mcache.SimCheckPoison()
 }
